@@ -26,9 +26,11 @@ PARTIAL = [
     "horizons of 4..5 s only",
     "the connect-timeout and client keep-alive-loop models (Timer.connect_phase, Timer.k_step) are small "
     "stand-alone models validated by the real-time scenarios only",
-    "write back-pressure that begins in the very poll that extended the read timer "
-    "(C20_no_underflow_refuted_backpressure) is replayed on the real dispatcher only with an injected expiry "
-    "(iostate case 0,4,0,0,50,0,0,0,0,0,1;1,5,0,0,0;1,6;12,0;13,5,5;9;12,1), not in real time",
+    "recorded finding stale-timer-while-not-ready (read-rate rule on): a frame-read timer that expires while "
+    "the request service is not ready is reported as KeepAliveTimeout (C20_live_refuted_not_ready, "
+    "C20_ka_zero_disables_refuted); with the read-rate rule off C20_live_default_config covers not-ready episodes",
+    "the two sequences that made `read_remains - read_remains_prev` underflow before 4dba145 are kept as "
+    "regression scenarios (iostate fixed part, timerrt 0x82/0x05 scenarios) and as C20_former_underflow_sequences",
 ]
 
 
@@ -242,6 +244,17 @@ def replay_parts(rp):
 
 
 def known_signature(part, case, impl_obs, oracle):
+    """recorded deviations of the current tree (see known_findings.json); anything else is None"""
+    f = oracle.split(",")
+    if len(f) < 3 or f[0] != "0" or part.engine != "timerrt":
+        return None
+    fields = case.split(";")
+    cfg = nums(fields[0]) + [0] * 10
+    ops = [o for o in (nums(x) for x in fields[1:]) if o]
+    if f[1] == "2" and cfg[8] == 0 and cfg[4] != 0 and any(op[1:3] == [8, 3] for op in ops):
+        # a frame-read timer expiring while the request service is not ready is handed over by
+        # poll_read_pause as KeepAliveTimeout (C20_live_refuted_not_ready, C20_ka_zero_disables_refuted)
+        return "stale-timer-while-not-ready"
     return None
 
 
